@@ -322,7 +322,8 @@ class BufferedFile(ClosingContextManager):
         Read all remaining lines using `readline` and return them as a list.
         If the optional ``sizehint`` argument is present, instead of reading up
         to EOF, whole lines totalling approximately sizehint bytes (possibly
-        after rounding up to an internal buffer size) are read.
+        after rounding up to an internal buffer size) are read.  As with
+        Python file objects, a ``sizehint`` of zero or less means "no hint".
 
         :param int sizehint: desired maximum number of bytes to read.
         :returns: list of lines read from the file.
@@ -335,7 +336,7 @@ class BufferedFile(ClosingContextManager):
                 break
             lines.append(line)
             byte_count += len(line)
-            if (sizehint is not None) and (byte_count >= sizehint):
+            if (sizehint is not None) and (0 < sizehint <= byte_count):
                 break
         return lines
 
